@@ -1166,7 +1166,7 @@ class World:
             except Exception as e:
                 # undefined input may be rejected - but then nothing may have been changed
                 if M.snap_frame(f) != snap0:
-                    self.viol("C01", "reject", "C01.reject|set_colnames|rejected-assignment-changed-the-frame",
+                    self.viol("C09", "reject", "C09.set_colnames|rejected-assignment-changed-the-frame",
                               f"colnames = {op['names']!r} on {old!r} raised {e!r} and left the frame "
                               f"with columns {list(dict.keys(f))!r}")
             # undefined (too short / duplicates): adopt whatever well-formed state results;
